@@ -94,6 +94,7 @@ func (eng *Engine) verifyFunc(key string) *FuncReport {
 	fr.entry = st.clone()
 	// ghost assignments of this function's own contract happen on entry
 	ex.applyGhostSets(st, c, ex.frameEnv(fr, fr.entry, fr.entry))
+	ex.goOwnsScan(key, st)
 	vals, out := ex.execBody(fr, st)
 	fr.results = vals
 	rep.ReachPC = out.pc
